@@ -80,6 +80,13 @@ func filterFunc(name string, rec *recorder) func(interface{}) (interface{}, erro
 		"zfail": func(v interface{}) (interface{}, error) { return nil, zeroErr{} },
 		// fails with an error whose dynamic type cannot be compared with == (a slice type): errors are values to hand on, not to compare
 		"ufail": func(v interface{}) (interface{}, error) { return nil, issuesErr{"first issue", "second issue"} },
+		// a user function that panics on strings (the caller recovers, as the runner does) and hands everything else on
+		"pstr": func(v interface{}) (interface{}, error) {
+			if _, ok := v.(string); ok {
+				panic("user filter function panicked on a string")
+			}
+			return v, nil
+		},
 		// a function whose result is a Go number that is not a float64 (kind int3): it replaces the value as it is
 		"k3": func(v interface{}) (interface{}, error) { return int(3), nil },
 		// a user function that itself uses the library and hands the error it got back unchanged
@@ -477,6 +484,14 @@ func locations(c *caseT, docIdx int, n int, rec *recorder) string {
 					break
 				}
 			}
+			// a value of the library's own Accessor type is a value like any other: it is stored as it is
+			if found[0] != "" {
+				src := jsonpath.Accessor{Get: func() interface{} { return 30.0 }}
+				acc.Set(src)
+				if g, ok := acc.Get().(jsonpath.Accessor); !ok || g.Get == nil || g.Get() != 30.0 {
+					loc += "!setAccessorValue"
+				}
+			}
 			// the location holds the very object given — not a copy of its members — and an object stored there before is
 			// left alone; storing the object that is already there (read, modify, write back) keeps it
 			if found[0] != "" {
@@ -606,6 +621,9 @@ func runCase(c *caseT) string {
 			doc = buildDocAliased(c.Docs[i])
 		} else {
 			doc = buildDoc(c.Docs[i])
+		}
+		if c.Packed > 0 {
+			doc = packDoc(doc, c.Packed+i)
 		}
 		before := render(doc)
 		docs[i], befores[i] = doc, before
